@@ -4,6 +4,6 @@
 D=${1:-/repo}
 cd "$D" || exit 2
 unset OPENPINCH_VERIF
-OUT=$(timeout 1800 /venv/bin/python -m pytest -q -p no:cacheprovider --timeout=900 -x --deselect tests/test_utils/test_export.py::test_export_writes_expected_excel --deselect tests/test_utils/test_export.py::test_export_writes_problem_tables_for_all_zones 2>&1 | tail -3)
+OUT=$(timeout 1800 /venv/bin/python -m pytest -q -p no:cacheprovider --timeout=900 -x  2>&1 | tail -3)
 echo "$OUT"
-echo "$OUT" | grep -q "339 passed" && ! echo "$OUT" | grep -q failed
+echo "$OUT" | grep -Eq "(339|340|341) passed" && ! echo "$OUT" | grep -q failed
